@@ -126,6 +126,20 @@ def targeted_calls(ctx):
         for ptype in ('Angular Spectrum', 'Transfer Function Fresnel'):
             add('propagate_beam/%s/padding %s' % (ptype, zpc), lambda ptype=ptype, zpc=zpc: LW.propagate_beam(fld, 2 * np.pi / 0.5, 1.0, 1.0, 0.5, propagation_type=ptype,
                                                                                                                  zero_padding=zpc))
+    # scalar arguments handed over as tensors (a distance taken from a tensor of plane positions), incl. the boundary value 0
+    for ptype in ('Angular Spectrum', 'Impulse Response Fresnel', 'Seperable Impulse Response Fresnel', 'Transfer Function Fresnel'):
+        for zt in (0.0, 1.0):
+            add('propagate_beam/%s/distance as a tensor %g' % (ptype, zt),
+                lambda ptype=ptype, zt=zt: LW.propagate_beam(fld, 2 * np.pi / 0.5, torch.tensor(zt), 1.0, 0.5, propagation_type=ptype, zero_padding=[False, False, False], samples=[2, 2, 1, 1]))
+    for ptype in ('Bandlimited Angular Spectrum', 'Impulse Response Fresnel'):
+        add('get_light_kernels/%s/distances tensor with a 0' % ptype,
+            lambda ptype=ptype: LW.get_light_kernels(wavelengths=[0.5], distances=torch.tensor([0.0, 1.0]), pixel_pitches=[1.0], resolution=[6, 6], samples=[2, 2, 1, 1],
+                                                     propagation_type=ptype))
+        dts, fld6 = torch.tensor([0.0, 1.5]), torch.rand(6, 6) + 0j
+        add('propagator/%s/distances tensor with a 0' % ptype,
+            lambda ptype=ptype, dts=dts, fld6=fld6: [LW.propagator(resolution=[6, 6], wavelengths=[0.5], pixel_pitch=1.0, number_of_frames=1, number_of_depth_layers=2,
+                                                                  propagation_type=ptype, propagator_type='forward', distances=dts,
+                                                                  aperture_samples=[2, 2, 1, 1])(fld6, channel_id=0, depth_id=d_).detach().clone() for d_ in (0, 1)])
     nf = np.random.rand(8, 8) + 0j
     for ptype in ('Angular Spectrum', 'Bandlimited Angular Spectrum', 'Transfer Function Fresnel', 'Impulse Response Fresnel', 'Fraunhofer'):
         add('np.propagate_beam/' + ptype, lambda ptype=ptype: NW.propagate_beam(nf, 2 * np.pi / 0.5, 1.0, 1.0, 0.5, ptype))
@@ -345,8 +359,7 @@ def run(ctx):
         ctx.violation('%s: %s' % (q, what), {'callable': q, 'how': 'run ./check C20; the probe repeats the call with copies of the arguments whose last two axes are exchanged in memory'},
                       {'fn': q, 'what': 'layout_dependent'})
     for q, what in sorted(probe.setting_dependent.items()):
-        ctx.violation('%s: %s' % (q, what), {'callable': q, 'how': 'run ./check C20; the probe repeats the call under torch.set_default_dtype(torch.float64) '
-                                                              'and torch.set_grad_enabled(False)'}, {'fn': q, 'what': 'setting_dependent'})
+        ctx.violation('%s: %s' % (q, what), {'callable': q, 'how': 'run ./check C20; the probe repeats the call under torch.set_grad_enabled(False)'}, {'fn': q, 'what': 'setting_dependent'})
     for q, what in sorted(probe.argument_type_dependent.items()):
         ctx.violation('%s: %s' % (q, what), {'callable': q, 'how': 'run ./check C20; the probe repeats the call with one argument handed over in another ordinary type'},
                       {'fn': q, 'what': 'argument_type_dependent'})
